@@ -27,12 +27,10 @@ static int fmt_is(const char *f, const char *lit)
     return 0;
 }
 
-int sprintf(char *str, const char *format, ...)
+static long fmt_len(const char *format, va_list ap)
 {
-    va_list ap;
     long len = -1;
 
-    va_start(ap, format);
     if (fmt_is(format, "%d")) {
 	len = 11;				/* -2147483648 */
     } else if (fmt_is(format, "%.*e")) {
@@ -46,6 +44,16 @@ int sprintf(char *str, const char *format, ...)
     } else if (fmt_is(format, "%a")) {
 	len = 24;
     }
+    return len;
+}
+
+int sprintf(char *str, const char *format, ...)
+{
+    va_list ap;
+    long len;
+
+    va_start(ap, format);
+    len = fmt_len(format, ap);
     va_end(ap);
     CHECK(len >= 0, "infra: sprintf called with a format the model does not know");
     CHECK(VERIF_RW_OK(str, (size_t)len + 1),
@@ -54,6 +62,32 @@ int sprintf(char *str, const char *format, ...)
     if (len >= 1 && VERIF_RW_OK(str, (size_t)len + 1)) {
 	str[0] = '1';
 	str[1] = 0;
+    }
+    return (int)len;
+}
+
+/*
+ * snprintf, same length model: it cannot overflow, but a number cut short
+ * is no longer the number (the file does not load, or loads another value),
+ * so "the longest output for this precision fits" is demanded all the same.
+ */
+int snprintf(char *str, size_t size, const char *format, ...)
+{
+    va_list ap;
+    long len;
+
+    va_start(ap, format);
+    len = fmt_len(format, ap);
+    va_end(ap);
+    CHECK(len >= 0, "infra: snprintf called with a format the model does not know");
+    CHECK(size == 0 || VERIF_RW_OK(str, size), "snprintf: the stated size is that of the destination buffer");
+    CHECK((long)size > len,
+	    "snprintf: the longest output for this precision is not truncated");
+    if (size >= 2 && VERIF_RW_OK(str, size)) {
+	str[0] = '1';
+	str[1] = 0;
+    } else if (size == 1 && VERIF_RW_OK(str, size)) {
+	str[0] = 0;
     }
     return (int)len;
 }
